@@ -13,13 +13,13 @@ Definition obs_ok (pool : list bundle) (o : op) (x : obs) : Prop :=
   | _, _ => True
   end.
 
-Theorem check_sound pool : forall ops os acc ret,
-  check_all pool acc ret ops os = true -> Forall2 (obs_ok pool) ops os.
+Theorem check_sound pool : forall ops os acc,
+  check_all pool acc ops os = true -> Forall2 (obs_ok pool) ops os.
 Proof.
-  induction ops as [|o ops IH]; intros os acc ret H; destruct os as [|x os]; try discriminate.
+  induction ops as [|o ops IH]; intros os acc H; destruct os as [|x os]; try discriminate.
   - constructor.
   - cbn [check_all] in H.
-    destruct o as [t i b|t i b|t i|t i|t]; destruct x as [| |[k|] v| |]; try discriminate;
+    destruct o as [t i b|t i b|t i|t i|t|t i l|t i l|t i]; destruct x as [| |[k|] v| | |]; try discriminate;
       try (apply andb_true_iff in H; destruct H as [H1 H2]);
       (constructor; [|eapply IH; eassumption]); cbn [obs_ok]; try exact I; try assumption.
     all: destruct (find_tag pool k) as [b'|]; [|discriminate].
